@@ -433,6 +433,66 @@ impl<T: Elem + SatisfyTraits<Tr>, M: MX, Tr: TrX + ?Sized> World<T, M, Tr> {
         }
     }
 
+    /// After a fault (C06): the vectors must stay fully usable. Re-seed the model from what is observed and run a
+    /// follow-up battery restricted to the trusted kernel (typed push / insert(0) / pop / remove(0), clear).
+    pub fn battery(&mut self, out: &mut Out) {
+        fn one<T: Elem + SatisfyTraits<Tr>, Tr: TrX + ?Sized, MV: MX>(v: &mut AnyVec<Tr, MV>, which: &str, out: &mut Out) {
+            let s0 = snap::<T, Tr, MV>(v);
+            if s0.iter().any(|(_, ok)| !*ok) { return; } // already reported as garbage-visible
+            let mut m: Vec<u16> = Vec::with_capacity(s0.len() + 4);
+            m.extend(s0.iter().map(|x| x.0));
+            let cap = v.capacity();
+            let r = guarded(|| {
+                let mut t = v.downcast_mut::<T>().unwrap();
+                if MV::RESIZABLE || m.len() < cap { let x = T::fresh(); m.push(x.id()); t.push(x); }
+                if MV::RESIZABLE || m.len() < cap { let x = T::fresh(); m.insert(0, x.id()); t.insert(0, x); }
+                if !m.is_empty() { let x = t.pop().unwrap(); let want = m.pop().unwrap(); let got = x.id(); { let _w = elem::WindowOff::new(); drop(x); } if T::SIZE != 0 && got != want { let _w = elem::WindowOff::new(); return Err(format!("pop returned {got}, want {want}")); } }
+                if !m.is_empty() { let x = t.remove(0); let want = m.remove(0); let got = x.id(); { let _w = elem::WindowOff::new(); drop(x); } if T::SIZE != 0 && got != want { let _w = elem::WindowOff::new(); return Err(format!("remove(0) returned {got}, want {want}")); } }
+                Ok(())
+            });
+            match r {
+                Ok(Ok(())) => {
+                    let s1 = snap::<T, Tr, MV>(v);
+                    if s1.len() != m.len() || (T::SIZE != 0 && !s1.iter().zip(&m).all(|((id, ok), w)| *ok && id == w)) {
+                        out.fail(Class::Vec, "unusable-after-fault", format!("{which}: after the fault the vector no longer behaves like Vec: holds {:?}, want {:?}", s1.iter().map(|x| x.0).collect::<Vec<_>>(), m));
+                    }
+                }
+                Ok(Err(e)) => out.fail(Class::Vec, "unusable-after-fault", format!("{which}: {e}")),
+                Err(Caught::Injected) => {}
+                Err(Caught::Panic(msg)) => out.fail(Class::Vec, "unusable-after-fault", format!("{which}: follow-up operations panicked: {msg}")),
+            }
+            if let Err(Caught::Panic(msg)) = guarded(|| v.clear()) { out.fail(Class::Vec, "unusable-after-fault", format!("{which}: clear panicked: {msg}")); }
+            if v.len() != 0 { out.fail(Class::Vec, "unusable-after-fault", format!("{which}: len {} after clear", v.len())); }
+        }
+        // elements visible now must be alive / intact / unique: checked here because the battery changes the contents
+        self.visible_check(out);
+        one::<T, Tr, M>(&mut self.a, "vector", out);
+        self.ma.clear();
+        if let Some(b) = self.b.as_mut() { one::<T, Tr, M::Aux>(b, "other vector", out); self.mb.clear(); }
+    }
+
+    /// every visible element is alive, intact and appears exactly once (across A and B)
+    pub fn visible_check(&self, out: &mut Out) {
+        let sa = snap::<T, Tr, M>(&self.a);
+        let sb = match &self.b { Some(b) => snap::<T, Tr, M::Aux>(b), None => Vec::new() };
+        if T::SIZE != 0 {
+            let mut seen = std::collections::HashSet::new();
+            for (id, ok) in sa.iter().chain(sb.iter()) {
+                if !*ok { out.fail(Class::Own, "garbage-visible", format!("element with id {id} has a broken canary (uninitialised / moved-out / overwritten memory visible)")); continue; }
+                if !seen.insert(*id) { out.fail(Class::Own, "duplicate", format!("id {id} is visible twice")); }
+                match elem::state_of(*id) {
+                    IdState::Live => {}
+                    IdState::Dead => if T::HAS_DROP { out.fail(Class::Own, "dead-visible", format!("id {id} was destroyed but is still visible")) },
+                    IdState::Never => out.fail(Class::Own, "garbage-visible", format!("id {id} was never created")),
+                }
+            }
+        } else if T::HAS_DROP {
+            let visible = (sa.len() + sb.len()) as i64;
+            let live = elem::with_reg(|r| r.zst_live);
+            if live < visible { out.fail(Class::Own, "dead-visible", format!("{visible} zero-sized elements visible but only {live} alive")); }
+        }
+    }
+
     /// Oracles after the edge: Vec-equivalence of contents, registry, storage. Then tear everything down.
     pub fn finish(self, pre_len: usize, out: &mut Out) {
         let World { a, ma, b, mb, .. } = self;
@@ -518,7 +578,6 @@ impl<T: Elem + SatisfyTraits<Tr>, M: MX, Tr: TrX + ?Sized> World<T, M, Tr> {
                     out.fails.push(Fail { class: Class::Own, kind: "leak", detail: format!("{} zero-sized values never destroyed", r.zst_live) });
                 }
             }
-            out.user_calls = r.user_calls;
         });
         // storage oracles
         track::with_ts(|ts| {
@@ -665,7 +724,8 @@ impl<T: Elem + SatisfyTraits<Tr>, M: MX, Tr: TrX + ?Sized> Runner for Cfg<T, M, 
             Edge::IterProto { api, kind, pat, clone_at } => w.do_iter_proto(api, kind, pat, clone_at, &mut out),
             _ => { out.fail(Class::Machinery, "unimplemented-edge", format!("{e:?}")); }
         }
-        elem::with_reg(|r| { r.fault_at = 0; });
+        elem::with_reg(|r| { r.fault_at = 0; out.user_calls = r.user_calls; if r.fault_fired { out.faulted = true; } });
+        if out.faulted && fault_at != 0 { w.battery(&mut out); }
         w.finish(pre_len, &mut out);
         out
     }
